@@ -37,9 +37,9 @@ def act_expr(a):
     raise ValueError(a)
 
 
-def guard_expr(g):
+def guard_expr(g, completion=False):
     if g is None: return 'none'
-    if isinstance(g, int): return 'Gd<%d>' % g
+    if isinstance(g, int): return ('Gc<%d>' if completion else 'Gd<%d>') % g
     if isinstance(g, tuple) and g[0] == 'cpp': return g[1]
     raise ValueError(g)
 
@@ -89,7 +89,7 @@ def emit_machine(prog, m, out, is_root, opts):
     if expl: out.append('  typedef mpl::vector<%s > explicit_creation;' % ', '.join(expl))
     rows = []
     for r in m.rows:
-        rows.append('Row<%s, %s, %s, %s, %s >' % (row_src(m, r), evt_expr(prog, r.evt), row_tgt(m, r), act_expr(r.act), guard_expr(r.guard)))
+        rows.append('Row<%s, %s, %s, %s, %s >' % (row_src(m, r), evt_expr(prog, r.evt), row_tgt(m, r), act_expr(r.act), guard_expr(r.guard, r.evt is None)))
     out.append('  struct transition_table : mpl::vector<\n    %s\n  > {};' % ',\n    '.join(rows))
     if m.internal:
         rows = ['Internal<%s, %s, %s >' % (evt_expr(prog, r.evt), act_expr(r.act), guard_expr(r.guard)) for r in m.internal]
@@ -126,8 +126,8 @@ def emit_cpp(prog, opts=None):
     for e in prog.events:
         b = prog.evt_base.get(e)
         if b: out.append('struct %s : %s { %s(int v = 0) : %s(v) {} };' % (e, b, e, b))
-        else: out.append('struct %s { int p; %s(int v = 0) : p(v) {} %s };' % (e, e, opts.get('evt_extra', {}).get(e, '')))
-    for f in opts.get('flags', []): out.append('struct %s {};' % f)
+        else: out.append('struct %s { int p; %s(int v = 0) : p(v) {} %s };' % (e, e, (getattr(prog, 'evt_extra', None) or opts.get('evt_extra', {})).get(e, '')))
+    for f in prog.flags: out.append('struct %s {};' % f)
     out.append('}')
     out.append('#if VF_BE == 5 || defined(VF_KLEENE)')
     for anyt, fn in (('std::any', 'vf_pay_stdany'), ('boost::any', 'vf_pay_boostany')):
@@ -161,20 +161,33 @@ def emit_cpp(prog, opts=None):
     out.append('__attribute__((noinline)) int vf_sid(int si) {\n  switch (si) {')
     for m in prog.machines:
         for st in m.states.values():
-            tn = st.name if st.kind == 'sub' else 'typename ' * 0 + '%s_::%s' % (m.name, st.name)
+            tn = st.name if st.kind == 'sub' else '%s_::%s' % (m.name, st.name)
+            if st.kind == 'exit': tn = '%s::exit_pt<%s >' % (machine_type(prog, m), tn)
             out.append('    case %d: return VF_SID(%s, %s);' % (st.idx, machine_type(prog, m), tn))
     out.append('    default: return -1;\n  }\n}')
+    if prog.flags:
+        out.append('__attribute__((noinline)) int vf_flags(void) {\n  int m = 0;')
+        for k, f in enumerate(prog.flags):
+            out.append('  if (g_sm.is_flag_active<%s>()) m |= %d;' % (f, 1 << k))
+            out.append('  if (VF_FLAG_AND(g_sm, %s)) m |= %d;' % (f, 1 << (8 + k)))
+        out.append('  return m;\n}')
     out.append(opts.get('extern_c', ''))
     out.append('}')
     return '\n'.join(out) + '\n'
 
 
 # ------------------------------------------------------------------ harness (C)
-KINDS_ALL = ('G', 'A', 'E', 'X', 'N', 'C', 'F')
+KINDS_ALL = ('G', 'A', 'E', 'X', 'N', 'C', 'F', 'Q')
 
 
 def entry_c(prog, ent):
-    """log entry of the model -> (code C expr, arg C expr)"""
+    """log entry of the model -> (code C expr, arg C expr or None = not compared)"""
+    code, arg = entry_c_(prog, ent)
+    if arg == ANY: arg = None
+    return code, arg
+
+
+def entry_c_(prog, ent):
     k = ent[0]
     if k == 'G': return ('%d' % (3000 + 2 * ent[1] + ent[2]), None)
     if k == 'E': return ('%d' % (100 + 4 * ent[1]), ent[2])
@@ -185,7 +198,21 @@ def entry_c(prog, ent):
         return ('(%d + VFN(vf_sid)(%d))' % (4000 + 64 * ent[1], m.states[ent[2]].idx), ent[3])
     if k == 'C': return ('%d' % (5000 + ent[1]), ent[2])
     if k == 'F': return ('%d' % (6000 + ent[1]), str(ent[2]))     # probe: code 6000+probe id, arg value
+    if k == 'Q': return ('%d' % (7000 + 2 * ent[1] + ent[2]), None)
     raise ValueError(ent)
+
+
+def flag_checks(prog, conf, tag):
+    """C17: flags are a pure function of the active configuration"""
+    if not prog.flags or not conf.started: return []
+    sem = Sem(prog, conf, Ctx(prog, {}))
+    om = sum(1 << k for k, f in enumerate(prog.flags) if sem.flag_or(f))
+    am = sum(1 << k for k, f in enumerate(prog.flags) if sem.flag_and(f))
+    root = prog.root
+    simple = all(root.states[n].kind != 'sub' for n in conf.m[root.name]['active'])
+    out = ['VF_CHECK((VFN(vf_flags)() & 0xff) == %d, "%s:flag OR answers");' % (om, tag)]
+    if simple: out.append('VF_CHECK(((VFN(vf_flags)() >> 8) & 0xff) == %d, "%s:flag AND answers");' % (am, tag))
+    return out
 
 
 def post_checks(prog, conf, tag):
@@ -210,10 +237,15 @@ def build_trie(prog, paths, proj, leaf_fn):
             key = entry_c(prog, ent)
             if key not in node.ch: node.ch[key] = Trie(); node.order.append(key)
             node = node.ch[key]
-        leaf = leaf_fn(dec, log, res, post)
+        leaf = (tuple(sorted(dec.items())), leaf_fn(dec, log, res, post))
         if node.leaf is None: node.leaf = [leaf]
         elif leaf not in node.leaf: node.leaf.append(leaf)
     return root
+
+
+def dec_cond(dec):
+    if not dec: return '1'
+    return ' && '.join('((vf_gmask >> %d) & 1u) == %du' % (site, v) for site, v in dec)
 
 
 def emit_trie(node, depth, ind, tag, out):
@@ -221,14 +253,12 @@ def emit_trie(node, depth, ind, tag, out):
     first = True
     if node.leaf is not None:
         out.append('%sif (vf_nlog == %d) {' % (pad, depth))
-        if len(node.leaf) == 1:
-            for l in node.leaf[0]: out.append(pad + '  ' + l)
-        else:
-            # several admissible outcomes (projection hid the deciding guard): any one may hold
-            conds = []
-            for alt in node.leaf:
-                conds.append('(' + ' && '.join(c for c in alt if not c.startswith('VF_')) + ')' if False else '1')
-            out.append(pad + '  /* ambiguous leaf: outcome not checked */')
+        # the path(s) of the reference model ending here: the guard valuation decides which one applies
+        for k, (dec, checks) in enumerate(node.leaf):
+            out.append('%s  %sif (%s) {' % (pad, '' if k == 0 else 'else ', dec_cond(dec)))
+            for l in checks: out.append(pad + '    ' + l)
+            out.append('%s  }' % pad)
+        out.append('%s  else { VF_CHECK(0, "%s:behaviour not admissible for this guard valuation"); }' % (pad, tag))
         out.append('%s}' % pad)
         first = False
     for key in node.order:
@@ -255,17 +285,29 @@ def result_checks(res, tag):
 
 
 def step_call(prog, st, decs=None, pay='0'):
-    if st[0] == 'start': return 'VFN(vf_start)();'
-    if st[0] == 'stop': return 'VFN(vf_stop)();'
+    g = 0
+    for site, v in (decs or {}).items():
+        if v: g |= 1 << site
+    pre = 'vf_gmask = 0x%xu; ' % g if decs is not None else ''
+    if st[0] == 'start': return pre + 'VFN(vf_start)();'
+    if st[0] == 'stop': return pre + 'VFN(vf_stop)();'
     if st[0] == 'ev':
-        g = 0
-        for site, v in (decs or {}).items():
-            if v: g |= 1 << site
-        return 'vf_gmask = 0x%xu; (void)VFN(vf_ev)(%d, %s);' % (g, prog.events.index(st[1]), pay)
+        return pre + '(void)VFN(vf_ev)(%d, %s);' % (prog.events.index(st[1]), pay)
     raise ValueError(st)
 
 
-def emit_harness(prog, confs, steps, tag, proj=KINDS_ALL, check_result=True, check_post=True,
+def active_completion_sites(prog, conf):
+    """guard sites of completion rows whose source state is active: the quantifier of C10 holds them fixed (false) until the state is re-entered"""
+    mask = 0
+    if not conf.started: return 0
+    for m in conf.active_machines():
+        for name in conf.m[m.name]['active']:
+            for row in m.rows:
+                if row.evt is None and row.src == name and row.guard is not None: mask |= 1 << row.guard
+    return mask
+
+
+def emit_harness(prog, confs, steps, tag, proj=KINDS_ALL, check_result=True, check_post=True, check_flags=False, probe=None,
                  extra_pre=None, extra_leaf=None, nsites=None):
     """confs: list of (conf, script).  steps: symbolic step alphabet (list of step descriptors;
     all 'ev' steps are merged into one nondet kind).  Emits harness_p<i> per configuration."""
@@ -282,11 +324,12 @@ def emit_harness(prog, confs, steps, tag, proj=KINDS_ALL, check_result=True, che
         # checkers
         fns = []
         for st in steps:
-            paths = explore(prog, conf, lambda sem, st=st: run_step(sem, st))
+            paths = explore(prog, conf, lambda sem, st=st: run_step(sem, st), probe=probe)
             def leaf_fn(dec, log, res, post):
                 l = []
                 if check_result: l += result_checks(res, tag)
                 if check_post: l += post_checks(prog, post, tag)
+                if check_flags: l += flag_checks(prog, post, tag)
                 if extra_leaf: l += extra_leaf(conf, st, dec, log, res, post)
                 return tuple(l)
             trie = build_trie(prog, paths, proj, leaf_fn)
@@ -303,13 +346,20 @@ def emit_harness(prog, confs, steps, tag, proj=KINDS_ALL, check_result=True, che
             out.append('  ' + step_call(prog, st, dec))
         out.append('  vf_in_prefix = 0;')
         for l in post_checks(prog, conf, tag + ':prefix'): out.append('  ' + l)
+        if check_flags:
+            for l in flag_checks(prog, conf, tag + ':prefix'): out.append('  ' + l)
         if extra_pre:
             for l in extra_pre(conf): out.append('  ' + l)
         nalt = (1 if evsteps else 0) + len(others)
         out.append('  uint32_t sel = vf_nondet(0); VF_ASSUME(sel < %d);' % nalt)
         out.append('  uint32_t kind = vf_nondet(1); VF_ASSUME(kind < %d);' % max(1, len(prog.events)))
+        out.append('#ifdef VF_KIND')
+        out.append('  kind = VF_KIND; vf_inputs[1] = kind;   /* one query per event kind (guards and payload stay symbolic) */')
+        out.append('#endif')
         out.append('  int32_t P = (int32_t)vf_nondet(2);')
         out.append('  vf_gmask = vf_nondet(3);')
+        cm = active_completion_sites(prog, conf)
+        if cm: out.append('  VF_ASSUME((vf_gmask & 0x%xu) == 0); /* completion guards of active states stay false (C10 quantifier) */' % cm)
         out.append('  vf_nlog = 0; uint32_t r = 0;')
         alt = 0
         if evsteps:
